@@ -1466,6 +1466,14 @@ def rule_d19(toks, log):
     forbids it), so their meaning is the same at module level; a clash with a module-level item of the same name is a
     compile error of the generated file, never a silent change.  The canary copy drops the hoisted tokens again (they are
     already present next to the original function): the log line `D19 hoisted_tokens=K` tells verus_run how many."""
+    # D19k (added for unit float_to_prim_once): directive `#[keep_local_items]` (annotation tokens) switches the rule off for
+    # this function: Verus (this build, probed) does accept a `const IDENT: T = LITERAL;` item statement in a method body,
+    # and hoisting it in front of a METHOD would turn it into an associated const (`Self::IDENT`) that the body's plain
+    # `IDENT` no longer names.  The real tokens stay exactly as they are; the directive itself is removed.
+    for i in range(len(toks) - 3):
+        if toks[i][2] and _is(toks[i], '#') and _is(toks[i + 1], '[') and _is(toks[i + 2], 'keep_local_items') and _is(toks[i + 3], ']'):
+            log.append('D19k #[keep_local_items]: fn-local items left in place')
+            return toks[:i] + toks[i + 4:]
     # the body: first real `{` after the `fn` keyword
     f = None
     for k, t in enumerate(toks):
